@@ -123,6 +123,50 @@ BLOCKS = {
     'reg_muskip': ('register', 'W', '\\thinmuskip=4mu plus 1mu \n'),
     'reg_glue': ('register', 'W', '\\parskip=3pt plus 1pt \n'),
     'reg_mudimen_free': ('register', 'W', '\\medmuskip=5mu\n'),
+    'tabular_open': ('open', 'W', '\\begin{tabular}{ll} a%(n)s & b \\\\ c & '),
+    'figure_open': ('open', 'W', '\\begin{figure} fig%(n)s \\caption{Open cap'),
+    'verbatim_open': ('open', 'W', '\\begin{verbatim}\nopen%(n)s \\x {\n'),
+    'footnote_open': ('open', 'W', 'Foot\\footnote{open%(n)s \\textbf{bold '),
+    'quote_open': ('open', 'W', '\\begin{quote} q%(n)s \\begin{center} c '),
+    'thm_open': ('open', 'W', '\\newtheorem{othm}{OThm}\\begin{othm} t%(n)s '),
+    'equation_open': ('open', 'W', '\\begin{equation} x_%(n)s = \\frac{1}{'),
+    'array_open': ('open', 'W', '$\\begin{array}{cc} a & b_%(n)s \\\\ c'),
+    'group_open': ('open', 'W', '{\\bfseries {\\itshape open%(n)s '),
+    'ifthen_open': ('open', 'W', '\\ifthenelse{\\(1<2\\) \\and '),
+    'verb_open': ('open', 'W', 'Verb \\verb|open%(n)s'),
+    'section_open': ('open', 'W', '\\section{Open %(n)s'),
+    'description_open': ('open', 'W', '\\begin{description}\\item[term%(n)s'),
+    'open_readers': ('open', 'R', 'R%(n)s \\begin{tabular}{lr}a&b\\end{tabular} \\begin{quote}q\\end{quote} F\\footnote{f} '
+                                  '\\begin{equation}x\\end{equation} \\verb|v| {\\bfseries b} $\\begin{array}{c}a\\end{array}$ \\begin{description}\\item[t] d\\end{description}\n'),
+    # environment classes related by inheritance (class-level caches such as @locals / @arguments are keyed per class)
+    'env_eqnarray_star': ('envs', 'W', '\\begin{eqnarray*} a_%(n)s &=& b \\\\ c &=& d \\end{eqnarray*}\n'),
+    'env_eqnarray': ('envs', 'R', '\\begin{eqnarray} a_%(n)s &=& b \\\\ c &=& d \\\\ e &=& f \\end{eqnarray}\\begin{equation} g=h \\end{equation}\n'),
+    'env_tabular': ('envs', 'W', '\\begin{tabular}{lc} t%(n)s & u \\\\ v & w \\end{tabular}\n'),
+    'env_tabular_star': ('envs', 'R', '\\begin{tabular*}{5cm}{lc} ts%(n)s & u \\\\ v & w \\end{tabular*}\n'),
+    'env_longtable': ('envs', 'R', '\\begin{longtable}{lc} \\caption{LT %(n)s}\\\\ h1 & h2 \\\\ \\endhead lt%(n)s & u \\\\ v & w \\end{longtable}\n'),
+    'env_array': ('envs', 'W', '$\\begin{array}{cc} a_%(n)s & b \\\\ c & d \\end{array}$\n'),
+    'env_align': ('envs', 'R', '\\begin{align} a_%(n)s &= b \\\\ c &= d \\end{align}\n'),
+    'env_align_star': ('envs', 'W', '\\begin{align*} a_%(n)s &= b \\\\ c &= d \\end{align*}\n'),
+    'env_gather': ('envs', 'R', '\\begin{gather} a_%(n)s = b \\\\ c = d \\end{gather}\n'),
+    'env_multline': ('envs', 'R', '\\begin{multline} a_%(n)s = b \\\\ + c \\end{multline}\n'),
+    'env_split': ('envs', 'R', '\\begin{equation}\\begin{split} a_%(n)s &= b \\\\ &= c \\end{split}\\end{equation}\n'),
+    'env_cases': ('envs', 'R', '$f_%(n)s=\\begin{cases} 1 & x \\\\ 0 & y \\end{cases}$\n'),
+    'env_matrix': ('envs', 'R', '$\\begin{pmatrix} a_%(n)s & b \\\\ c & d \\end{pmatrix}$\n'),
+    'env_figure_star': ('envs', 'R', '\\begin{figure*} fs%(n)s \\caption{FS %(n)s}\\end{figure*}\n'),
+    'env_table_star': ('envs', 'R', '\\begin{table*} ts%(n)s \\caption{TS %(n)s}\\end{table*}\n'),
+    'env_center': ('envs', 'W', '\\begin{center} c%(n)s \\end{center}\n'),
+    'env_flush': ('envs', 'R', '\\begin{flushleft} fl%(n)s \\end{flushleft}\\begin{flushright} fr \\end{flushright}\n'),
+    'env_quotes': ('envs', 'R', '\\begin{quotation} qa%(n)s \\end{quotation}\\begin{verse} ve \\end{verse}\\begin{quote} qu \\end{quote}\n'),
+    'env_minipage': ('envs', 'R', '\\begin{minipage}{3cm} mp%(n)s \\end{minipage}\n'),
+    'env_abstract': ('envs', 'R', '\\begin{abstract} ab%(n)s \\end{abstract}\n'),
+    'env_verbatim_star': ('envs', 'R', '\\begin{verbatim*}\nvs%(n)s x y\n\\end{verbatim*}\n'),
+    'env_thebibliography': ('envs', 'R', '\\begin{thebibliography}{9}\\bibitem{k%(n)s} Ref %(n)s.\\end{thebibliography}\n'),
+    'env_displaymath': ('envs', 'R', '\\begin{displaymath} d_%(n)s \\end{displaymath}\\begin{math} m \\end{math}\n'),
+    'env_picture': ('envs', 'R', '\\begin{picture}(10,10)\\put(1,1){p%(n)s}\\end{picture}\n'),
+    'env_tabbing': ('envs', 'R', '\\begin{tabbing} ta%(n)s \\= b \\\\ c \\> d \\end{tabbing}\n'),
+    'env_trivlist': ('envs', 'R', '\\begin{trivlist}\\item tl%(n)s\\end{trivlist}\\begin{list}{-}{}\\item li\\end{list}\n'),
+    'env_subequations': ('envs', 'R', '\\begin{subequations}\\begin{equation} s_%(n)s \\end{equation}\\end{subequations}\n'),
+    'env_alignat': ('envs', 'R', '\\begin{alignat}{2} a_%(n)s &= b & c &= d \\end{alignat}\\begin{flalign} e &= f \\end{flalign}\n'),
     'openout': ('switch', 'W', '\\openout\\myout=file%(n)s.aux \n'),
     'skip_dimen': ('switch', 'N', 'A\\vskip 3pt B\\hskip 2pt C%(n)s.\n'),
     'skip_glue': ('switch', 'N', 'A\\vspace{3pt plus 1pt} B\\hspace{2pt} C%(n)s.\n'),
@@ -131,9 +175,12 @@ BLOCKS = {
     'assign_probe': ('switch', 'R', '\\parindent=9pt Q%(n)s:\\ifdim\\parindent=9pt Y\\else N\\fi.\n'),
     'listings_pkg': ('resources', 'W', 'Uses listings resources %(n)s.\n'),
 }
-NEEDS = {'listings_pkg': ['listings'], 'ifthen_math': ['ifthen'], 'ifthen_plain': ['ifthen'], 'color': ['color'], 'href': ['hyperref'],
+NEEDS = {'env_longtable': ['longtable'], 'env_align': ['amsmath'], 'env_align_star': ['amsmath'], 'env_gather': ['amsmath'],
+         'env_multline': ['amsmath'], 'env_split': ['amsmath'], 'env_cases': ['amsmath'], 'env_matrix': ['amsmath'],
+         'env_subequations': ['amsmath'], 'env_alignat': ['amsmath'], 'ifthen_open': ['ifthen'], 'listings_pkg': ['listings'], 'ifthen_math': ['ifthen'], 'ifthen_plain': ['ifthen'], 'color': ['color'], 'href': ['hyperref'],
          'coltype_def': ['array'], 'coltype_use': ['array']}
-BLOCK_IDS = sorted(BLOCKS)
+BLOCK_IDS = sorted(b for b in BLOCKS if not b.endswith('_open'))
+OPENERS = sorted(b for b in BLOCKS if b.endswith('_open'))
 CONFLICTS = [('newif', 'newif_probe'), ('coltype_def', 'coltype_use')]
 
 
@@ -160,6 +207,10 @@ def job_source(job):
         lines.append(BLOCKS[b][2] % {'n': str(n + 1)})
     lines.append('\\end{document}')
     src = '\n'.join(lines) + '\n'
+    if job.get('cut') == 999:
+        return src[:src.rindex('\\end{document}')]          # end of input while the last block's construct is open
+    if job.get('cut') == 998:
+        return src                                          # \end{document} arrives while it is open
     if job.get('cut') is not None:
         body = src.index('\\begin{document}') + len('\\begin{document}')
         span = len(src) - body
@@ -196,9 +247,9 @@ def generate(seed, tier):
                'dt': r.choice([1, 3600, 86400, 31 * 86400, 400 * 86400, -86400])}
         if not last and r.random() < 0.3:
             job['cut'] = r.randrange(200, 1000)
-        if not last and r.random() < 0.15 and ('math_open' not in blocks and 'list_open' not in blocks):
-            job['blocks'] = blocks + [r.choice(['math_open', 'list_open'])]
-            job['cut'] = 999
+        if not last and r.random() < 0.25 and not any(b.endswith('_open') for b in blocks):
+            job['blocks'] = blocks + [r.choice(OPENERS)]
+            job['cut'] = r.choice([999, 999, 998])
         ops.append(job)
     if r.random() < 0.12 and len(ops) >= 2:       # the "same input twice" case
         ops[-1] = dict(ops[-2], dt=r.choice([1, 86400]))
@@ -372,6 +423,12 @@ def history_job(args, fs):
             except Exception as e:
                 files[rel] = 'UNREADABLE:%s' % type(e).__name__
         out['files'] = files
+        # label files are the cross-DOCUMENT channel (C20), not interpreter state: a job must not see the
+        # .paux of the jobs before it, or it would legitimately resolve their labels (harness action, logged)
+        for fn in sorted(lifetimes._real['listdir'](root)):
+            if fn.endswith('.paux'):
+                lifetimes._real['remove'](os.path.join(root, fn))
+                fs.event('harness-remove', fn)
         snap = snapshot()
         drift = {}
         for path in set(pristine) | set(snap):
@@ -489,6 +546,9 @@ def execute(record):
                     info['eof_cut_inside_math'] = 1
                 if 'list_open' in job['blocks']:
                     info['eof_cut_inside_list'] = 1
+                for b in job['blocks']:
+                    if b.endswith('_open'):
+                        info['completed_with_open:' + b] = 1
                 if j + 1 < len(completed):
                     info['job_after_truncated_job'] = 1
             if j > 0 and abs(jobs[j]['clock'] - jobs[j - 1]['clock']) > 300 * 86400:
@@ -544,7 +604,7 @@ def execute(record):
         fams_r = set(BLOCKS[b][0] for b in job['blocks'] if b in BLOCKS and BLOCKS[b][1] == 'R')
         if fams_r & writers:
             nontrivial = True
-        writers |= set(BLOCKS[b][0] for b in job['blocks'] if b in BLOCKS and BLOCKS[b][1] == 'W')
+        writers |= set(BLOCKS[b][0] for b in job['blocks'] if b in BLOCKS and (BLOCKS[b][1] == 'W' or BLOCKS[b][0] == 'envs'))
     res['nontrivial'] = nontrivial
     res['digest'] = core.hexdigest([[j['src'], j['renderer'], j['split'], j['theme']] for j in jobs])
     res['log_digest'] = core.hexdigest(log)
@@ -585,7 +645,7 @@ def simplify(record):
             yield dict(record, ops=ops[:i] + [dict(op, blocks=op['blocks'][:k] + op['blocks'][k + 1:])] + ops[i + 1:])
         for k in range(len(op['packages'])):
             yield dict(record, ops=ops[:i] + [dict(op, packages=op['packages'][:k] + op['packages'][k + 1:])] + ops[i + 1:])
-        if op.get('cut') is not None and op['cut'] != 999:
+        if op.get('cut') is not None and op['cut'] not in (998, 999):
             yield dict(record, ops=ops[:i] + [dict(op, cut=None)] + ops[i + 1:])
         if op['cls'] != 'article':
             yield dict(record, ops=ops[:i] + [dict(op, cls='article')] + ops[i + 1:])
